@@ -31,7 +31,7 @@ ASSUMPTIONS = [
 ]
 BUDGET = {
     "quick": dict(cases=600, shards=4, timeout=900),
-    "thorough": dict(cases=6000, shards=16, timeout=3000),
+    "thorough": dict(cases=6000, shards=16, timeout=5400),
 }
 
 SINGLE = ["dot", "general", "concat"]
